@@ -71,6 +71,7 @@ fn main() {
         ["trace", "ctrbig", ..] => ctrrun::big(arg(&a, 2), &a[3]),
         ["trace", "coverage", ..] => covrun::trace(arg(&a, 2), arg(&a, 3), &a[4], arg(&a, 5), &a[6]),
         ["trace", "idx", ..] => covrun::idx(arg(&a, 2), arg(&a, 3), &a[4]),
+        ["trace", "minw0big", ..] => minrun::w0big(arg(&a, 2), &a[3]),
         ["trace", "minout", ..] => minrun::free(arg(&a, 2), arg(&a, 3), &a[4], arg(&a, 5)),
         ["replay", "minout", ..] => minrun::replay(&a[2], arg(&a, 3), &a[4], arg(&a, 5), arg(&a, 6), a[7] == "m2s"),
         ["decode", "minout", ..] => minrun::decode(&a[2], &a[3], a[4] == "m2s", arg(&a, 5), arg(&a, 6)),
